@@ -201,11 +201,15 @@ def LSt.setVal {α : Type} (C : Cls α) (strCalls : Bool) (B : Str) (s : LSt α)
     | .error => (s1, .invalid)
     | .unm => (s1, .unm)
 
-/-- `Config reset network <network>`: the raw `group.value` is copied, nothing is called -/
+/-- `Config reset network <network>`: the general value is called first (so that a re-read file
+takes effect), then copied -/
 def LSt.resetNetwork {α : Type} (C : Cls α) (strCalls : Bool) (B : Str) (s : LSt α) (n : Str) : LSt α × Out α :=
   match s.reach C strCalls B (.net n) with
   | (s1, false) => (s1, .invalid)
-  | (s1, true) => (s1.assign (.net n) s1.st.var.value true, .done)
+  | (s1, true) =>
+    match s1.call C B .base with
+    | (s2, none) => (s2, .invalid)
+    | (s2, some _) => (s2.assign (.net n) s2.st.var.value true, .done)
 
 /-- `Config reset channel <network> <channel>` (`network = none` is the literal `*`) -/
 def LSt.resetChannel {α : Type} (C : Cls α) (strCalls : Bool) (B : Str) (s : LSt α) (network : Option Str) (c : Str) :
@@ -217,14 +221,20 @@ def LSt.resetChannel {α : Type} (C : Cls α) (strCalls : Bool) (B : Str) (s : L
       (match s.reach C strCalls B (.netChan n c) with
        | (s1, false) => (s1, false)
        | (s1, true) =>
-         (match s1.st.var.valueAt (.net n) with
-          | some nvv => (s1.assign (.netChan n c) nvv true, true)
-          | none => (s1, false)))
+         (match s1.call C B (.net n) with
+          | (s2, none) => (s2, false)
+          | (s2, some _) =>
+            (match s2.st.var.valueAt (.net n) with
+             | some nvv => (s2.assign (.netChan n c) nvv true, true)
+             | none => (s2, false))))
   match step1 with
   | (s1, false) => (s1, .invalid)
   | (s1, true) =>
     match s1.reach C strCalls B (.chan c) with
     | (s2, false) => (s2, .invalid)
-    | (s2, true) => (s2.assign (.chan c) s2.st.var.value true, .done)
+    | (s2, true) =>
+      match s2.call C B .base with
+      | (s3, none) => (s3, .invalid)
+      | (s3, some _) => (s3.assign (.chan c) s3.st.var.value true, .done)
 
 end C15
